@@ -155,4 +155,66 @@ theorem lanes_mod (w n m v : Nat) (h : w * n ≤ m) : lanes w n (v % 2 ^ m) = la
   apply lane_mod
   exact Nat.le_trans (Nat.mul_le_mul_left _ hi) h
 
+theorem shift_unlanes (w k : Nat) (l : List Nat) (h : ∀ x ∈ l, x < 2 ^ w) (hk : k ≤ l.length) :
+    unlanes w l >>> (w * k) = unlanes w (l.drop k) := by
+  conv => lhs; rw [← List.take_append_drop k l, unlanes_append, List.length_take, Nat.min_eq_left hk]
+  have hlt := unlanes_lt w (l.take k) (fun x hx => h x (List.mem_of_mem_take hx))
+  rw [List.length_take, Nat.min_eq_left hk] at hlt
+  rw [Nat.shiftRight_eq_div_pow, Nat.add_mul_div_left _ _ (Nat.pow_pos (by decide)), Nat.div_eq_of_lt hlt, Nat.zero_add]
+
+/-- lane `j` of width `W = w·k`, regrouped from lanes of width `w` -/
+theorem laneJ_unlanes (W w k j : Nat) (hW : W = w * k) (l : List Nat) (h : ∀ x ∈ l, x < 2 ^ w)
+    (hlen : k * j + k ≤ l.length) : lane W j (unlanes w l) = unlanes w ((l.drop (k * j)).take k) := by
+  subst hW
+  have e : lane (w * k) j (unlanes w l) = lane (w * k) 0 (unlanes w l >>> (w * (k * j))) := by
+    simp [lane, Nat.mul_assoc]
+  rw [e, shift_unlanes w (k * j) l h (by omega)]
+  exact lane0_unlanes_take w k _ (fun x hx => h x (List.mem_of_mem_drop hx)) (by simp; omega)
+
+theorem lanes_succ (w n v : Nat) : lanes w (n + 1) v = lanes w n v ++ [lane w n v] := by
+  simp [lanes, List.range_succ]
+
+theorem unlanes_lanes (w n v : Nat) : unlanes w (lanes w n v) = v % 2 ^ (w * n) := by
+  induction n with
+  | zero => simp [lanes, unlanes_nil, Nat.mod_one]
+  | succ n ih =>
+    rw [lanes_succ, unlanes_append, ih, lanes_length, unlanes_cons, unlanes_nil, Nat.mul_zero, Nat.add_zero,
+      Nat.mul_succ, Nat.pow_add, Nat.mod_mul, lane, Nat.shiftRight_eq_div_pow]
+
+theorem map2_one (w : Nat) (f : Nat → Nat → Nat) (a b : Nat) : map2 w 1 f a b = f (lane w 0 a) (lane w 0 b) := by
+  simp [map2, lanes, unlanes_cons, unlanes_nil]
+
+theorem map1_one (w : Nat) (f : Nat → Nat) (a : Nat) : map1 w 1 f a = f (lane w 0 a) := by
+  simp [map1, lanes, unlanes_cons, unlanes_nil]
+
+theorem lane_lane0_128 (i a : Nat) (hi : i < 4) : lane 32 i (lane 128 0 a) = lane 32 i a := by
+  rw [lane_zero]; exact lane_mod 32 i 128 a (by omega)
+
+theorem lane64_lane0_128 (i a : Nat) (hi : i < 2) : lane 64 i (lane 128 0 a) = lane 64 i a := by
+  rw [lane_zero]; exact lane_mod 64 i 128 a (by omega)
+
+/-- VPUNPCKLDQ a, b on an X register -/
+theorem x_unpckldq (a b : Nat) :
+    map2 128 (16 / 16) unpckldq a b = unlanes 32 [lane 32 0 b, lane 32 0 a, lane 32 1 b, lane 32 1 a] := by
+  rw [show 16 / 16 = 1 from rfl, map2_one]
+  simp only [unpckldq, lane_lane0_128 _ _ (by decide : 0 < 4), lane_lane0_128 _ _ (by decide : 1 < 4)]
+
+theorem x_unpckhdq (a b : Nat) :
+    map2 128 (16 / 16) unpckhdq a b = unlanes 32 [lane 32 2 b, lane 32 2 a, lane 32 3 b, lane 32 3 a] := by
+  rw [show 16 / 16 = 1 from rfl, map2_one]
+  simp only [unpckhdq, lane_lane0_128 _ _ (by decide : 2 < 4), lane_lane0_128 _ _ (by decide : 3 < 4)]
+
+theorem x_unpcklqdq (a b : Nat) :
+    map2 128 (16 / 16) unpcklqdq a b = unlanes 64 [lane 64 0 b, lane 64 0 a] := by
+  rw [show 16 / 16 = 1 from rfl, map2_one]
+  simp only [unpcklqdq, lane64_lane0_128 _ _ (by decide : 0 < 2)]
+
+theorem lane32_list4 (p q r s : Nat) (hp : p < 2 ^ 32) (hq : q < 2 ^ 32) (hr : r < 2 ^ 32) (hs : s < 2 ^ 32) :
+    lane 32 0 (unlanes 32 [p, q, r, s]) = p ∧ lane 32 1 (unlanes 32 [p, q, r, s]) = q ∧
+    lane 32 2 (unlanes 32 [p, q, r, s]) = r ∧ lane 32 3 (unlanes 32 [p, q, r, s]) = s := by
+  have hb : ∀ x ∈ [p, q, r, s], x < 2 ^ 32 := by
+    intro x hx; simp at hx; rcases hx with rfl | rfl | rfl | rfl <;> assumption
+  exact ⟨lane_unlanes 32 _ hb 0 (by simp), lane_unlanes 32 _ hb 1 (by simp),
+    lane_unlanes 32 _ hb 2 (by simp), lane_unlanes 32 _ hb 3 (by simp)⟩
+
 end SMGo.Proofs.ISAVal
